@@ -350,8 +350,10 @@ def live_part(ctx, sizes, codes, wd):
                         else:
                             got = buf.getvalue()
                         expected = src
-                        if faults.hit and faults.hit[0] == "read" and what == 1:
-                            expected = src[:faults.hit[2]]        # the server said "end of file" there
+                        if faults.hit and faults.hit[0] == "read" and what == 1 and got != src:
+                            # the server said "end of file" there once: either the transfer ends there, or the
+                            # client asks again (a prefetch EOF is re-checked by a plain read) and gets it all
+                            expected = src[:faults.hit[2]]
                         if got != expected:
                             ctx.fail("download-inexact:" + ("prefetch" if prefetch else "plain") +
                                      (":" + faults.hit[0] if faults.hit else ":clean"),
